@@ -301,6 +301,8 @@ impl<T> MutexIsh<T> {
         #[cfg(unimock_verif)]
         let _critical = crate::verif::CriticalGuard::enter();
         let mut lock = self.inner.lock().unwrap();
+        #[cfg(unimock_verif)]
+        crate::verif::yield_point(crate::verif::Site::LockHeld);
         func(&mut *lock)
     }
 }
@@ -319,6 +321,8 @@ impl<T> MutexIsh<T> {
         #[cfg(unimock_verif)]
         let _critical = crate::verif::CriticalGuard::enter();
         let mut lock = self.inner.lock();
+        #[cfg(unimock_verif)]
+        crate::verif::yield_point(crate::verif::Site::LockHeld);
         func(&mut *lock)
     }
 }
@@ -338,21 +342,24 @@ impl<T> MutexIsh<T> {
 
 #[cfg(unimock_verif)]
 impl<T> MutexIsh<T> {
-    /// Read the protected value without a yield point (verification hooks only).
-    pub fn verif_peek<U>(&self, func: impl FnOnce(&T) -> U) -> U {
+    /// Read the protected value without a yield point and without blocking (verification hooks
+    /// only). `None` if the lock is held right now.
+    pub fn verif_peek<U>(&self, func: impl FnOnce(&T) -> U) -> Option<U> {
         #[cfg(feature = "std")]
         {
-            let lock = self.inner.lock().unwrap_or_else(|poison| poison.into_inner());
-            func(&*lock)
+            match self.inner.try_lock() {
+                Ok(lock) => Some(func(&*lock)),
+                Err(::std::sync::TryLockError::Poisoned(poison)) => Some(func(&*poison.into_inner())),
+                Err(::std::sync::TryLockError::WouldBlock) => None,
+            }
         }
         #[cfg(all(feature = "spin-lock", not(feature = "std")))]
         {
-            let lock = self.inner.lock();
-            func(&*lock)
+            self.inner.try_lock().map(|lock| func(&*lock))
         }
         #[cfg(not(any(feature = "std", feature = "spin-lock")))]
         {
-            func(&*self.inner.borrow())
+            self.inner.try_borrow().ok().map(|value| func(&*value))
         }
     }
 }
